@@ -16,6 +16,26 @@ def _other_installation(gen):
     return inst
 
 
+_FRESH = {}
+
+
+def fresh_life(gen):
+    """(relative time, request kind) of everything a freshly created client sends during 700 s after init."""
+    if gen not in _FRESH:
+        from .. import vloop
+        prev = vloop.events._get_running_loop()
+        w = apiworld.ApiWorld(gen, _other_installation(gen), auto=True)
+        r = w.init_now(0.0)
+        assert r and r[1] is True
+        t0 = r[2]
+        n0 = len(w.console.requests)
+        w.loop.run_until(t0 + 700.0)
+        _FRESH[gen] = [(round(x[0] - t0, 6), x[2]) for x in w.console.requests[n0:]]
+        if prev is not None:
+            vloop.install(prev)
+    return _FRESH[gen]
+
+
 class Scenario(apiworld.ApiWorld):
     """Full API object; the environment resolves connects and releases the console's answers one
     by one, so shutdown() can land between any two handshake steps."""
@@ -237,6 +257,15 @@ class Scenario(apiworld.ApiWorld):
                 return self._v("reinit-rebuilds-model", f"model after re-init {got} != {exp}")
             if len(self.net.live()) != 1:
                 return self._v("single-connection", f"{len(self.net.live())} live connections after re-init")
+            # "works as on a fresh object": the periodic behaviour of the second life (heartbeat, AT4 poll) over
+            # 700 s of idle time must equal that of a fresh object against the same console
+            t_init = self.init_result[-1][2]
+            n1 = len(self.console.requests)
+            L.run_until(t_init + 700.0)
+            second = [(round(r[0] - t_init, 6), r[2]) for r in self.console.requests[n1:]]
+            fresh = fresh_life(self.gen)
+            if second != fresh:
+                return self._v("reinit-behaves-like-fresh", f"requests during 700 s after re-init {second} differ from a fresh object's {fresh}")
         # Not part of the statement: a subscriber task orphaned by the cancellation in close() may end
         # with NotOpenError that nobody retrieves ("Task exception was never retrieved").  Counted only.
         self.unretrieved = len(self.loop_reports())
